@@ -119,7 +119,8 @@ class Check:
         wrap = os.path.join(s.hdir, u.wrap)
         info = {'name': u.name, 'dir': d, 'ok': False}
         s.units[u.name] = info
-        cxx = CLANG_FLAGS + s.defs + s.gen_inc() + include_flags() + ['-I' + s.hdir, '-I' + TOOLS] + u.cxxflags
+        if getattr(u, 'pre', None): u.pre(s, d)      # unit-specific generated headers (from the current tree) go to the unit's scratch dir
+        cxx = CLANG_FLAGS + s.defs + s.gen_inc() + include_flags() + ['-I' + s.hdir, '-I' + TOOLS, '-I' + d] + u.cxxflags
         lls = []
         for i, src in enumerate([wrap] + [s.repo_src(x) for x in u.extra_repo_cc]):
             ll = os.path.join(d, 'm%d.ll' % i)
@@ -147,7 +148,7 @@ class Check:
         info['untranslated'] = {k: v for k, v in rep['functions'].items() if isinstance(v, str)}
         if getattr(u, 'post', None): u.post(s, info)
         # harness table for native runs
-        rc, pre, err, dt = run(['gcc', '-E', '-DVF_NATIVE', '-I' + TOOLS, '-I' + d, '-I' + s.hdir, os.path.join(s.hdir, u.harness)])
+        rc, pre, err, dt = run(['gcc', '-E', '-DVF_NATIVE'] + ['-D' + x for x in u.cdefs] + ['-I' + TOOLS, '-I' + d, '-I' + s.hdir, os.path.join(s.hdir, u.harness)])
         hs = sorted(set(re.findall(r'\bvoid (h_\w+)\(void\)\s*\{', pre)))
         with open(os.path.join(d, 'table.c'), 'w') as f:
             f.write('struct vf_entry { const char *name; void (*fn)(void); };\n')
@@ -178,7 +179,7 @@ class Check:
             objs = []
             for i, src in enumerate([os.path.join(s.hdir, u.wrap)] + [s.repo_src(x) for x in u.extra_repo_cc]):
                 o = os.path.join(d, 'real%d.o' % i)
-                cmd = ['g++', '-std=c++17', '-O0', '-g', '-w', '-fno-strict-aliasing'] + san + s.defs + s.gen_inc() + include_flags() + ['-I' + s.hdir, '-I' + TOOLS] + u.cxxflags + list(getattr(u, 'real_cxxflags', [])) + ['-DVF_REAL_BUILD', '-c', src, '-o', o]
+                cmd = ['g++', '-std=c++17', '-O0', '-g', '-w', '-fno-strict-aliasing'] + san + s.defs + s.gen_inc() + include_flags() + ['-I' + s.hdir, '-I' + TOOLS, '-I' + d] + u.cxxflags + list(getattr(u, 'real_cxxflags', [])) + ['-DVF_REAL_BUILD', '-c', src, '-o', o]
                 rc, out, err, dt = run(cmd, timeout=900)
                 if rc != 0: s.log('real build failed:', err[-1500:]); return None
                 objs.append(o)
